@@ -2,6 +2,8 @@ CONSTANTS DSpan = 12
           NDay = 7
           MJMax = 13
           MYears = {2000}
+          WSpanAbs = {0, 1, 2, 5}
+          WKAbs = {1, 2, 3}
 SPECIFICATION Spec
 PROPERTY Termination
 INVARIANT StrictlyMonotone
@@ -19,3 +21,6 @@ INVARIANT FinalExplained
 INVARIANT IntTdDaySame
 INVARIANT EveryKthWeekday
 INVARIANT MachineIsFunction
+INVARIANT SpellingsSame
+INVARIANT WholeDayClosed
+INVARIANT ShortSpanIsT0
